@@ -176,7 +176,7 @@ def r9_engine_contracts(a, tier):
     # ---------------------------------------------------------------- skip_to()
     fn = a.ct.lookup(CTX, 'skip_to')
     n = {'exp': 0, 'adv': 0}
-    me = Stub(CTX, pos=0, if_=_null, eof=Hook(lambda: False))
+    me = Stub(CTX, pos=0, if_=_null, eof=Hook(lambda: False), states=Recorder('states'), state=Recorder('state'))
 
     def expcall(f, me=me, n=n):
         n['exp'] += 1
